@@ -235,12 +235,19 @@ def build_optimized_pattern(choices: list[ChoiceChoice], repeat: str = "") -> st
         match choice:
             case UnicodePropertyRule(expression=RegexExpression(pattern=pattern)):
                 unicode_props.append(pattern)
-            case ChoiceLiteral(value=val, case=ChoiceCase.INSENSITIVE) if len(val) == 1:
+            case ChoiceLiteral(value=val, case=ChoiceCase.INSENSITIVE) if (
+                len(val) == 1 and val.isascii() and val.lower() not in "iks"
+            ):
+                # ASCII letters other than i, k and s have no case variants
+                # outside ASCII, so these two are all that `CIString` accepts.
                 char_class_parts.append(val.upper())
                 char_class_parts.append(val.lower())
             case ChoiceLiteral(value=val, case=ChoiceCase.INSENSITIVE):
+                # Match like `CIString` does, with simple case folding ("k" also
+                # matches the Kelvin sign). Under VERSION1 a bare `(?i:...)`
+                # means full case folding, where "ss" would match "\u00df".
                 flush_single_character_choices()
-                parts.append(f"(?i:{re.escape(val)})")
+                parts.append(f"(?i-f:{re.escape(val)})")
             case ChoiceLiteral(value=val, case=ChoiceCase.SENSITIVE) if len(val) == 1:
                 char_class_parts.append(val)
             case ChoiceLiteral(value=val, case=ChoiceCase.SENSITIVE):
